@@ -4,6 +4,7 @@ import (
 	"encoding/json"
 	"fmt"
 	"regexp"
+	"strconv"
 	"strings"
 	"testing"
 	"unicode/utf8"
@@ -60,9 +61,10 @@ func provenance(toks []gen.Tok, df string) (cols, strs map[string]bool) {
 		} else {
 			d := model.Decode(t.Text)
 			if !d.Known {
-				// undocumented token form (single-quoted phrase ...): its own text is
-				// what occurs in the query
-				strs[t.Text], cols[t.Text], cols[clip63(t.Text)] = true, true, true
+				// undocumented token form (single-quoted phrase, pattern with escapes
+				// ...): its own text, also after the fixed pattern translation, is what
+				// occurs in the query
+				strs[t.Text], strs[translate(t.Text)], cols[t.Text], cols[clip63(t.Text)] = true, true, true, true
 				continue
 			}
 			v = d.Val
@@ -70,6 +72,12 @@ func provenance(toks []gen.Tok, df string) (cols, strs map[string]bool) {
 		switch v.K {
 		case gen.VInt, gen.VFloat:
 			cols[v.Src], strs[v.Src] = true, true
+			// a numeric field name may be spelled canonically (007 -> 7)
+			if v.K == gen.VInt {
+				cols[strconv.Itoa(v.I)] = true
+			} else {
+				cols[strconv.FormatFloat(v.F, 'f', -1, 64)], cols[strconv.FormatFloat(v.F, 'g', -1, 64)], cols[strconv.FormatFloat(v.F, 'e', -1, 64)] = true, true, true
+			}
 			if v.S != "" {
 				strs[v.S], cols[v.S] = true, true
 			}
